@@ -22,6 +22,9 @@ for d in (1, 2, 3):
 # ---- C19 index bases (the C01 step family and C02 iterator laws also run with index bases; here: creation of bases + flat ranges on re-based views)
 for d in (1, 2, 3):
     U('C19', 'C19_rebase.cpp', defines=dict(DIM=d, NB=3, SB=6), unwind=6, timeout=900)
+# owning arrays over explicit index extensions (bases in [-2,2]): construct / copy / assign / == / reextent
+U('C19', 'C19_owning.cpp', defines=dict(DIM=1, NB=3, ELT='int', SLOT_CELLS=3), unwind=6, timeout=1200, heap=128)
+U('C19', 'C19_owning.cpp', defines=dict(DIM=2, NB=2, ELT='int', SLOT_CELLS=4), unwind=7, timeout=1800, heap=128, slots=2)
 for d in (1, 2):
     U('C19', 'C02_iter.cpp', name='C19_elements_rebased_DIM%d' % d, defines=dict(DIM=d, NB=3, SB=6, EFB=2), entries=['elements_shape', 'elements_index', 'elements_movement'], unwind=6, timeout=900)
 
